@@ -77,6 +77,26 @@ impl Report {
         self.found.push(Found { rule: rule.to_string(), signature, detail, replay, occurrences: 1 });
     }
 
+    /// Combines two partial reports for the same property (e.g. input-space fuzz + engine simulation)
+    pub fn merge(mut self, other: Report, label_self: &str, label_other: &str) -> Report {
+        self.evaluations += other.evaluations;
+        self.distinct_nontrivial += other.distinct_nontrivial;
+        self.rule = format!("[{}] {} || [{}] {}", label_self, self.rule, label_other, other.rule);
+        for s in other.samples { if self.samples.len() < 6 { self.samples.push(s); } }
+        let mine = std::mem::take(&mut self.extra);
+        self.extra.insert(label_self.to_string(), Value::Object(mine));
+        self.extra.insert(label_other.to_string(), Value::Object(other.extra));
+        for a in other.assumptions { if !self.assumptions.contains(&a) { self.assumptions.push(a); } }
+        for f in other.found {
+            let occ = f.occurrences;
+            self.add_found(&f.rule, f.signature, f.detail, f.replay);
+            if let Some(last) = self.found.iter_mut().last() { if last.occurrences < occ { last.occurrences = occ; } }
+        }
+        self.inconclusive.extend(other.inconclusive);
+        self.wall_s += other.wall_s;
+        self
+    }
+
     /// Writes evidence and replay files, prints the verdict lines, returns the process exit code.
     pub fn finish(mut self) -> i32 {
         let known = load_known();
